@@ -163,6 +163,14 @@ func (c20Engine) Run(raw json.RawMessage) (interface{}, error) {
 	if err := json.Unmarshal(raw, &in); err != nil {
 		return nil, err
 	}
+	// other calls made earlier in the same process must not matter: the neighbours whose width and
+	// text, written one after the other, read the same as this call's (8, "0 errors" and 80, " errors");
+	// a longer text at this width; this text at the next width
+	if in.Wrap >= 10 {
+		pgs.C(in.Wrap/10, string(rune('0'+in.Wrap%10))+in.Text.String())
+	}
+	pgs.C(in.Wrap, in.Text.String()+" x")
+	pgs.C(in.Wrap+1, in.Text.String())
 	out := pgs.C(in.Wrap, in.Text.String())
 	// the text of a comment is fmt.Sprint of the operands: the same text handed over in several
 	// operands of mixed kinds (strings, string-kind names, ints) must wrap the same
